@@ -52,6 +52,8 @@
 #include <limits>
 #include <set>
 #include <sstream>
+#include <sys/wait.h>
+#include <unistd.h>
 
 using namespace Opm;
 namespace fs = std::filesystem;
@@ -105,8 +107,38 @@ std::string dimStr(const Dimension& d) {
     return sc + " " + fbits(d.getSIOffset());
 }
 
-// would UnitSystem::parse index parts[1] of a one-element vector?  (undefined behaviour, never sent)
+// Strings that end in their only '/': UnitSystem::parse throws std::invalid_argument for them since fix
+// ee5075475; before, it indexed parts[1] of a one-element vector (undefined behaviour).  Whether the tree under
+// test refuses them is probed once in a forked child (so that a tree without the guard cannot take the harness
+// down): "" = every probe string threw std::invalid_argument, else what happened instead.
+const std::vector<std::string> TRAILING_SLASH = { "/", "Length/", "Length*Time/", "Foo/", "Pressure/" };
+std::string probeTrailingSlash() {
+    for (const auto& s : TRAILING_SLASH) {
+        std::cout.flush(); std::cerr.flush();
+        const pid_t pid = fork();
+        if (pid < 0) return "fork failed";
+        if (pid == 0) {
+            int rc = 1;
+            try { UnitSystem u(UnitSystem::UnitType::UNIT_TYPE_METRIC); (void) u.parse(s).getSIOffset(); rc = 1; }
+            catch (const std::invalid_argument&) { rc = 0; }
+            catch (const std::exception&) { rc = 2; }
+            catch (...) { rc = 2; }
+            _exit(rc);
+        }
+        int st = 0;
+        if (waitpid(pid, &st, 0) != pid) return "waitpid failed";
+        if (WIFSIGNALED(st)) return "parse(\"" + s + "\") killed the probe process with signal " + std::to_string(WTERMSIG(st));
+        if (!WIFEXITED(st) || WEXITSTATUS(st) != 0)
+            return "parse(\"" + s + "\") " + (WEXITSTATUS(st) == 1 ? "returned a Dimension" : "threw something else than std::invalid_argument") +
+                   " (it reads parts[1] of a one-element vector)";
+    }
+    return "";
+}
+bool g_trailingSlashRefused = false;
+
+// would UnitSystem::parse index parts[1] of a one-element vector?  (undefined behaviour: never sent)
 bool parseWouldBeUB(const std::string& s) {
+    if (g_trailingSlashRefused) return false;
     if (std::count(s.begin(), s.end(), '/') != 1) return false;
     return s.back() == '/';
 }
@@ -250,14 +282,10 @@ std::vector<std::tuple<std::string, std::string, std::string>> fieldPropsUnits()
     return out;
 }
 
-// Findings on the unchanged code that have been REPORTED and await the main session's decision
-// (design.d/C02.md, "Findings of round 3").  A failure under one of these exact keys is written to
-// pending.txt and counted, not reported as FAIL; every other key fails as usual.  Empty this set
-// when the findings are listed in known_findings.txt or fixed.
-const std::set<std::string> PENDING = {
-    "fieldprops.unit.GRID.YMODULE", "fieldprops.unit_vs_keyword.GRID.YMODULE", "fieldprops.unit_vs_keyword.GRID.THELCOEF",
-    "fieldprops.unit_vs_keyword.GRID.HEATCR", "fieldprops.unit_vs_keyword.GRID.HEATCRT",
-    "uda_dim.WCONPROD_RESV", "uda_dim.WCONINJE_RESV", "uda_dim.GCONINJE_RESV_MAX_RATE", "uda_dim.WCONPROD_LIFT" };
+// Findings that have been REPORTED and await the main session's decision: a failure under one of these exact
+// keys is written to pending.txt and counted, not reported as FAIL.  Empty since the round-3 findings were
+// fixed (0d2fae2e6, ee5075475); the one left open (uda_dim.WCONPROD_LIFT) fails until known_findings.txt lists it.
+const std::set<std::string> PENDING = { };
 
 // the harness's own reading of a composite: product of the named factors left of '/', divided by those right of it
 bool ownComposite(const UnitSystem& u, const std::string& s, double& out) {
@@ -634,6 +662,8 @@ int main(int argc, char** argv) {
 
     std::vector<UnitSystem> systems;
     for (auto t : ALL_TYPES) systems.emplace_back(t);
+    const std::string trailingSlashProbe = probeTrailingSlash();
+    g_trailingSlashRefused = trailingSlashProbe.empty();
 
     if (mode == "corr") {
         vh::Sink sink(outdir);
@@ -722,6 +752,7 @@ int main(int argc, char** argv) {
         strs.insert(strs.end(), { "", "*", "**", "Length*", "*Length", "Length**Time", "/Length", "1/1", "Length/Length/Length",
                                   "Temperature", "Temperature*Length", "Length/Temperature", "ContextDependent", "Pressure*ContextDependent",
                                   "Volume/Time", "Pressure*Time/Volume" });
+        strs.insert(strs.end(), TRAILING_SLASH.begin(), TRAILING_SLASH.end());      // skipped below if the tree does not refuse them
         for (const auto& s : strs) {
             if (parseWouldBeUB(s)) { sink.count("parse.skipped_ub"); continue; }
             for (const auto& u : systems) {
@@ -796,7 +827,16 @@ int main(int argc, char** argv) {
                     sink.count(a == "err" ? "strconv.err" : "strconv.ok");
                 }
             }
-            for (const char* ub : { "/", "Length/", "Length*Time/", "Foo/" }) sink.emit("units.ub " + hexs(ub), "1");
+            for (const auto& ub : TRAILING_SLASH) {
+                sink.emit("units.ub " + hexs(ub), g_trailingSlashRefused ? "0" : "1");
+                if (!g_trailingSlashRefused) continue;
+                for (const auto& u : systems) {
+                    std::string a;
+                    try { a = fbits(u.to_si(ub, 1.0)); } catch (const std::exception&) { a = "err"; }
+                    sink.emit("units.tosi_s " + sysId(u) + " " + hexs(ub) + " " + fbits(1.0), a);
+                    sink.count("strconv.trailing_slash");
+                }
+            }
         }
         // (9) uda_dim for every UDAControl enumerator
         for (const auto& u : systems)
@@ -1055,6 +1095,17 @@ int main(int argc, char** argv) {
                         stats["output_values"]++;
                     }
                 }
+            }
+        }
+        // (g2) a string that ends in its only '/' is refused with std::invalid_argument (no out-of-bounds parts[1])
+        if (!g_trailingSlashRefused) log.fail("parse.trailing_slash", trailingSlashProbe);
+        else {
+            log.ok();
+            for (const auto& s : TRAILING_SLASH) for (const auto& u : systems) {
+                bool threw = false;
+                try { (void) u.to_si(s, 1.0); } catch (const std::invalid_argument&) { threw = true; } catch (const std::exception&) {}
+                if (!threw) log.fail("parse.trailing_slash", u.getName() + " to_si(\"" + s + "\", 1) did not throw std::invalid_argument"); else log.ok();
+                stats["trailing_slash"]++;
             }
         }
         // (h) string overloads invert each other, offset dimensions included
